@@ -88,8 +88,20 @@ uint32_t cop_serialize_value(const NanoValue *val, uint8_t *buf, uint32_t buf_si
     return pos;
 }
 
+/* Arrays nest by recursion: a peer must not be able to choose the depth of our C stack
+ * (2,000,000 nested 6-byte array headers fit into one message) */
+#define COP_MAX_VALUE_NESTING 64
+
+static uint32_t cop_deserialize_value_at(const uint8_t *buf, uint32_t buf_size,
+                                         NanoValue *out, VmHeap *heap, int depth);
+
 uint32_t cop_deserialize_value(const uint8_t *buf, uint32_t buf_size,
                                NanoValue *out, VmHeap *heap) {
+    return cop_deserialize_value_at(buf, buf_size, out, heap, 0);
+}
+
+static uint32_t cop_deserialize_value_at(const uint8_t *buf, uint32_t buf_size,
+                                         NanoValue *out, VmHeap *heap, int depth) {
     if (buf_size < 1) return 0;
     uint8_t tag = buf[0];
     uint32_t pos = 1;
@@ -140,6 +152,7 @@ uint32_t cop_deserialize_value(const uint8_t *buf, uint32_t buf_size,
         break;
     }
     case TAG_ARRAY: {
+        if (depth >= COP_MAX_VALUE_NESTING) return 0;   /* undecodable, like any other malformed value */
         if (pos + 5 > buf_size) return 0;
         uint8_t etype = buf[pos++];
         uint32_t count;
@@ -151,8 +164,8 @@ uint32_t cop_deserialize_value(const uint8_t *buf, uint32_t buf_size,
         if (!arr || !arr->elements) return 0;
         for (uint32_t i = 0; i < count; i++) {
             NanoValue elem;
-            uint32_t n = cop_deserialize_value(buf + pos, buf_size - pos,
-                                                &elem, heap);
+            uint32_t n = cop_deserialize_value_at(buf + pos, buf_size - pos,
+                                                   &elem, heap, depth + 1);
             if (n == 0) { *out = val_void(); return 0; }
             pos += n;
             vm_array_push(arr, elem);
